@@ -39,7 +39,7 @@ def gen_value(rng, ty, odd=0.04):
         return rng.choice([{"r": "0.0"}, {"r": "-1.5"}, {"r": "3.25"}, {"r": "10000000000.0"}, {"r": "0.1"}, {"i": 5},
                            {"r": "12.34"}])
     if f == "blob":
-        return {"b": rng.choice(["", "00ff", "deadbeef", "27"])}
+        return {"b": rng.choice(["", "6162", "27", "c3a9", "00"])}
     if ty == "DATE":
         return {"t": rng.choice(["2020-01-02", "1999-12-31"])}
     return {"t": rng.choice(["2020-01-02 03:04:05.000000", "1999-12-31 23:59:59.999999"])}
@@ -195,6 +195,8 @@ def gen_ops(rng, t, n=None, wild=0.08):
         k = rng.choice(kinds)
         if k == "add_column" and newc:
             nm = newc.pop(0)
+            if rng.random() < 0.02 and len(t["cols"]) > 1:
+                nm = rng.choice([c["name"] for c in t["cols"][1:]])   # the name of an existing column (C10-F2)
             ty = rng.choice(INTS + STRS + ["FLOAT", "BOOLEAN"])
             nullable = rng.random() < 0.8
             d = rng.choice(DEFAULTS[family(ty)]) if family(ty) in DEFAULTS and (rng.random() < (0.8 if not nullable else 0.2)) else None
@@ -208,7 +210,8 @@ def gen_ops(rng, t, n=None, wild=0.08):
                 o["after"] = rng.choice(pool)
             elif r < 0.55 and len(pool) > 1:
                 o["before"], o["after"] = rng.sample(pool, 2)
-            if rng.random() < 0.05:
+            if rng.random() < 0.05 and not any(x["op"] == "add_column" and x["col"].get("index") for x in ops):
+                # one per batch: `table.indexes` is a set, two CREATE INDEX on the temp table come in hash order
                 o["col"]["index"] = True
             added.append(nm)
             cur.append(nm)
@@ -273,7 +276,9 @@ def gen_ops(rng, t, n=None, wild=0.08):
             consts.append((ops[-1]["name"], "foreignkey"))
         elif k == "add_pk" and cur and rng.random() < 0.5:
             # a NULL in an INTEGER PRIMARY KEY column is replaced by a fresh rowid by SQLite itself: not generated
-            pc = [c for c in cur if not has_null.get(key.get(c, c), True)]
+            # ... and a non-integer value in an INTEGER PRIMARY KEY (rowid alias) is a "datatype mismatch"
+            pc = [c for c in cur if not has_null.get(key.get(c, c), True) and (tys.get(c) not in INTS or all_int.get(key.get(c, c), False))
+                  and c not in retyped]
             if not pc:
                 continue
             c = rng.choice(pc)
